@@ -200,7 +200,9 @@ RULE_POOL = ["example.com", "*.example.com", "*", "Example.COM.", "api.example.c
              "fc00::/7", "2001:db8::/32", "2001:db8::1", "8.8.8.0/24", "1.1.1.1/32", "1.1.1.1", "93.184.216.34",
              "example.com:8080", "*.*", "127.0.0.0/8", "169.254.169.254", "fe80::/10", "2606:4700::/32",
              "172.16.0.0/12", "0.0.0.0/1", "128.0.0.0/1", "8.8.8.8/31", "one.example", "*.one.example"]
-MAPPED_RULES = ["::ffff:8.8.8.8", "::ffff:10.0.0.0/104", "::ffff:1.1.1.0/120", "::ffff:0.0.0.0/96"]
+MAPPED_RULES = ["::ffff:8.8.8.8", "::ffff:10.0.0.0/104", "::ffff:1.1.1.0/120", "::ffff:0.0.0.0/96", "::ffff:8.8.8.0/120",
+                "::ffff:8.8.8.8/127", "::ffff:1.1.1.1/128", "::ffff:93.184.216.34", "::FFFF:1.1.1.200/125", "::ffff:0:0/95",
+                "::ffff:8.8.8.8/95", "::fffe:0:0/95", "::ffff:808:808", "0:0:0:0:0:ffff:a00:0/104"]
 BAD_RULES = ["http://x.example", "", "exa mple", "*.", "a*b.example"]
 
 PUB4 = [q(8, 8, 8, 8), q(8, 8, 8, 9), q(1, 1, 1, 1), q(1, 1, 1, 200), q(93, 184, 216, 34), q(100, 64, 0, 1), q(203, 0, 113, 7)]
@@ -218,7 +220,7 @@ HOSTS = ["example.com", "EXAMPLE.com", "example.com.", "example.com..", "api.exa
 LITERALS = ["127.0.0.1", "10.0.0.1", "8.8.8.8", "1.1.1.1", "1.1.1.200", "93.184.216.34", "169.254.169.254", "0.0.0.0",
             "255.255.255.255", "192.168.1.1", "172.32.0.1", "100.64.0.1", "224.0.0.1", "[::1]", "[::]", "[::ffff:127.0.0.1]",
             "[::ffff:8.8.8.8]", "[::FFFF:10.0.0.1]", "[0:0:0:0:0:ffff:7f00:1]", "[fe80::1%25eth0]", "[2001:db8::1]",
-            "[2001:DB8::2]", "[fc00::1]", "[fd00::1]:8443", "[ff02::1]", "[2606:4700::1111]", "[::7f00:1]", "[64:ff9b::7f00:1]",
+            "[2001:DB8::2]", "[::fffe:808:808]", "[::ffff:1.1.1.1]", "[fc00::1]", "[fd00::1]:8443", "[ff02::1]", "[2606:4700::1111]", "[::7f00:1]", "[64:ff9b::7f00:1]",
             "8.8.8.8:53", "1.1.1.1."]
 SCHEMES = ["http", "https", "https", "http", "HTTP", "HtTpS", "ftp", "file", "ws", "gopher", "javascript"]
 WEIRD_URLS = ["//example.com/x", "example.com/x", "http:example.com", "http:///x", "https://", "http://exa mple.com/",
@@ -246,6 +248,10 @@ FIXED_POLICIES = [
     {"https_only": "on", "redirects": "on", "rebind": "on", "allow": [], "deny": ["*.evil.example"]},
     {"https_only": "off", "redirects": "on", "rebind": "on", "allow": [], "deny": ["::ffff:8.8.8.8"]},
     {"https_only": "off", "redirects": "on", "rebind": "off", "allow": [], "deny": ["::ffff:10.0.0.0/104"]},
+    {"https_only": "off", "redirects": "on", "rebind": "on", "allow": ["::ffff:8.8.8.0/120"], "deny": []},          # 10
+    {"https_only": "off", "redirects": "on", "rebind": "on", "allow": ["*"], "deny": ["::ffff:0:0/95"]},           # 11: < 96 bits stays a v6 prefix
+    {"https_only": "off", "redirects": "on", "rebind": "on", "allow": ["::ffff:1.1.1.1/128"], "deny": ["::ffff:1.1.1.0/120"]},   # 12
+    {"https_only": "off", "redirects": "on", "rebind": "on", "allow": [], "deny": ["::ffff:0.0.0.0/96"]},           # 13: every IPv4 address
 ]
 for _ho in ("on", "off"):
     for _rd in ("on", "off"):
@@ -344,7 +350,12 @@ def rule_spec_match(rule, host, addrs):
         if rule["sub"]:
             return host != d and host.endswith("." + d), False
         return host == d, False
-    fam, addr, bits = rule["fam"], int(rule["addr"], 16), rule["bits"]
+    # the rule as written (netip's parse of the configured text), read as the property reads it:
+    # an address/prefix in IPv4-mapped notation with >= 96 prefix bits names the embedded IPv4 block
+    if rule.get("raw_ok"):
+        fam, addr, bits = rule["raw_fam"], int(rule["raw_addr"], 16), rule["raw_bits"]
+    else:
+        fam, addr, bits = rule["fam"], int(rule["addr"], 16), rule["bits"]
     mapped = False
     if fam == 6 and MAPPED_LO <= addr <= MAPPED_HI and bits >= 96:
         fam, addr, bits, mapped = 4, addr - MAPPED_LO, bits - 96, True
@@ -364,6 +375,8 @@ def coq_bytes_of(s):
 
 def coq_rule(r):
     if r["is_cidr"]:
+        if r.get("raw_ok"):     # as written; the model applies parseEgressRule's unmapping itself (crr = cr o compile_prefix)
+            return "(crr %s %d %d)" % ("F4" if r["raw_fam"] == 4 else "F6", int(r["raw_addr"], 16), r["raw_bits"])
         return "(cr %s %d %d)" % ("F4" if r["fam"] == 4 else "F6", int(r["addr"], 16), r["bits"])
     return "(hr %s %s)" % (coq_bytes_of(r["host"].encode("latin-1")), C.coq_bool(r["sub"]))
 
@@ -480,6 +493,15 @@ def main(ctx, replay):
         {"policy": 8, "chain": ["http://[::ffff:8.8.8.8]/x"], "codes": [], "dns": {}, "mode": "deliver"},
         {"policy": 8, "chain": ["http://dns.example/x"], "codes": [], "dns": {"dns.example": [{"err": False, "ips": ["08080808"]}]}, "mode": "deliver"},
         {"policy": 9, "chain": ["http://10.0.0.1/x"], "codes": [], "dns": {}, "mode": "deliver"},
+        {"policy": 10, "chain": ["http://8.8.8.8/x"], "codes": [], "dns": {}, "mode": "deliver"},
+        {"policy": 10, "chain": ["http://[::ffff:8.8.8.9]/x"], "codes": [], "dns": {}, "mode": "deliver"},
+        {"policy": 10, "chain": ["http://1.1.1.1/x"], "codes": [], "dns": {}, "mode": "deliver"},
+        {"policy": 11, "chain": ["http://8.8.8.8/x"], "codes": [], "dns": {}, "mode": "deliver"},
+        {"policy": 11, "chain": ["http://[::ffff:8.8.8.8]/x"], "codes": [], "dns": {}, "mode": "deliver"},
+        {"policy": 11, "chain": ["http://[::fffe:808:808]/x"], "codes": [], "dns": {}, "mode": "deliver"},
+        {"policy": 12, "chain": ["http://1.1.1.1/x"], "codes": [], "dns": {}, "mode": "deliver"},
+        {"policy": 13, "chain": ["http://a.example/x", "http://b.example/y"], "codes": [307],
+         "dns": {"a.example": [{"err": False, "ips": ["20010db8000000000000000000000001"]}], "b.example": [{"err": False, "ips": ["08080808"]}]}, "mode": "deliver"},
     ]
     # one real PushDispatcher run per case class
     push = [
@@ -494,6 +516,7 @@ def main(ctx, replay):
         {"policy": 1, "chain": ["http:///x"], "codes": [], "dns": {}, "mode": "push", "_cls": "empty-host"},
         {"policy": 1, "chain": ["http://a.example/x", "http://169.254.169.254/latest"], "codes": [302], "dns": {"a.example": [{"err": False, "ips": ["01010101"]}]}, "mode": "push", "_cls": "redirect-to-metadata"},
         {"policy": 1, "chain": ["http://ok.example/x"], "codes": [], "dns": {"ok.example": [{"err": False, "ips": ["01010101"]}]}, "mode": "push", "_cls": "allowed"},
+        {"policy": 8, "chain": ["http://[::ffff:8.8.8.8]/x"], "codes": [], "dns": {}, "mode": "push", "_cls": "deny-mapped-notation"},
         {"policy": 1, "chain": ["http://nx.example/x"], "codes": [], "dns": {}, "mode": "push", "_cls": "lookup-error"},
         {"policy": 0, "chain": ["https://a.example/x", "https://b.example/y"], "codes": [307], "dns": {"a.example": [{"err": False, "ips": ["01010101"]}], "b.example": [{"err": False, "ips": ["01010101"]}]}, "mode": "push", "_cls": "redirects-off"},
     ]
@@ -509,7 +532,8 @@ def main(ctx, replay):
     # ---- model on the usable cases
     items, idx = [], []
     dist = {"policies_compiled": n_pol_ok, "policies_rejected_by_compile": len(pols) - n_pol_ok, "cases": len(cases),
-            "target_unparseable": 0, "location_unparseable": 0, "chain_len": {}, "modes": {}, "model_outcome": {}, "sent_len": {}}
+            "target_unparseable": 0, "location_unparseable": 0,
+            "mapped_notation_rule_decisive": {"refused_by_deny": 0, "allowed_by_allow": 0, "not_in_mapped_allowlist": 0}, "chain_len": {}, "modes": {}, "model_outcome": {}, "sent_len": {}}
     for ci, (c, r) in enumerate(zip(cases, impl["cases"])):
         dist["modes"][c["mode"]] = dist["modes"].get(c["mode"], 0) + 1
         if not pols[c["policy"]]["ok"]:
@@ -574,11 +598,32 @@ def main(ctx, replay):
         # walk the hops the implementation contacted, replaying the resolver script in query order
         counts, qi = {}, 0
         queries = r["queries"]
-        for i in range(min(len(sent), n_chain)):
+        refused = 1 if (r["err_class"] == "policy_denied" or r.get("dead_reason") == "policy_denied") else 0
+        for i in range(min(len(sent) + refused, n_chain)):
             h = hops[i]
             sch = h["scheme"].lower()
             hostname = bytes.fromhex(h["hostname"]).decode("latin-1")
             host = py_norm_host(hostname)
+            if i >= len(sent):
+                # the hop the implementation refused: only measure whether a rule in IPv4-mapped notation decided it
+                addrs = []
+                if need_ips and sch in ("http", "https") and host != "" and not (p["https_only"] and sch != "https"):
+                    if h["lit"]:
+                        addrs = [parse_hex_ip(h["lit"])]
+                    else:
+                        seq = c["dns"].get(host)
+                        if seq:
+                            a = seq[min(counts.get(host, 0), len(seq) - 1)]
+                            addrs = [] if a["err"] else [parse_hex_ip(x) for x in a["ips"] if x != "nil"]
+                    ok_ips = (not p["rebind"]) or all(spec_classes(*a) == [] and denote(*a) != (4, 0xFFFFFFFF) for a in addrs)
+                    if addrs and ok_ips:
+                        ms = [rule_spec_match(rule, host, addrs) for rule in p["deny"]]
+                        if any(m and vm for m, vm in ms) and not any(m and not vm for m, vm in ms):
+                            dist["mapped_notation_rule_decisive"]["refused_by_deny"] += 1
+                        elif not any(m for m, _ in ms) and p["allow"] and not any(rule_spec_match(rule, host, addrs)[0] for rule in p["allow"]) \
+                                and any(rule.get("raw_ok") and rule["raw_fam"] == 6 and MAPPED_LO <= int(rule["raw_addr"], 16) <= MAPPED_HI for rule in p["allow"]):
+                            dist["mapped_notation_rule_decisive"]["not_in_mapped_allowlist"] += 1
+                break
             if sch not in ("http", "https"):
                 bad("scheme:%s" % hop_class(i), "request sent to scheme %r (hop %d)" % (h["scheme"], i))
             if p["https_only"] and sch != "https":
@@ -611,12 +656,15 @@ def main(ctx, replay):
                 if m:
                     if via_mapped:
                         bad("deny-rule-in-ipv4-mapped-notation-never-matches",
-                            "request sent to %r although deny rule %s/%d (IPv4-mapped notation) covers its address (hop %d)" % (h["abs"], rule["addr"], rule["bits"], i))
+                            "request sent to %r although deny rule %r (IPv4-mapped notation) covers its address (hop %d)" % (h["abs"], rule.get("text"), i))
                     else:
                         bad("deny-ignored:%s" % hop_class(i), "request sent to %r although a deny rule matches (hop %d): %s" % (h["abs"], i, rule))
             if p["allow"]:
-                if not any(rule_spec_match(rule, host, addrs)[0] for rule in p["allow"]):
+                ms = [rule_spec_match(rule, host, addrs) for rule in p["allow"]]
+                if not any(m for m, _ in ms):
                     bad("allowlist-open:%s" % hop_class(i), "request sent to %r which matches no allow rule (hop %d)" % (h["abs"], i))
+                elif not any(m and not vm for m, vm in ms):
+                    dist["mapped_notation_rule_decisive"]["allowed_by_allow"] += 1
         if c["mode"] == "push":
             denied_at = None
             if mr is not None and 1 <= mr[1] <= 6:
